@@ -6,88 +6,37 @@
 #include <fcppt/container/tree/child_position.hpp>
 #include <fcppt/container/tree/comparison.hpp>
 #include <fcppt/container/tree/depth.hpp>
+#include <fcppt/container/tree/is_object.hpp>
 #include <fcppt/container/tree/level.hpp>
+#include <fcppt/container/tree/make_pre_order.hpp>
+#include <fcppt/container/tree/make_to_root.hpp>
 #include <fcppt/container/tree/map.hpp>
 #include <fcppt/container/tree/object.hpp>
+#include <fcppt/container/tree/output.hpp>
 #include <fcppt/container/tree/pre_order.hpp>
 #include <fcppt/container/tree/to_root.hpp>
 #include <fcppt/optional/object_impl.hpp>
 #include <fcppt/optional/reference.hpp>
 
 #include <cstddef>
+#include <functional>
+#include <initializer_list>
 #include <iterator>
 #include <memory>
+#include <sstream>
 #include <string>
 #include <utility>
 #include <vector>
 
 namespace
 {
-using tree = fcppt::container::tree::object<int>;
-using ltree = fcppt::container::tree::object<long>;
 using path = std::vector<std::size_t>;
 
 constexpr std::size_t max_roots = 4;
 constexpr std::size_t grow_cap = 40;
 constexpr std::size_t copy_cap = 64;
 constexpr std::size_t walk_cap = 100000;
-
-std::vector<std::unique_ptr<tree>> forest;
-
-template <typename T>
-std::size_t size_of(T const &t)
-{
-  std::size_t r = 1;
-  for (auto const &c : t.children())
-    r += size_of(c);
-  return r;
-}
-
-std::size_t count()
-{
-  std::size_t r = 0;
-  for (auto const &t : forest)
-    r += size_of(*t);
-  return r;
-}
-
-void paths_t(tree const &t, path &cur, std::vector<path> &out)
-{
-  out.push_back(cur);
-  std::size_t j = 0;
-  for (auto const &c : t.children())
-  {
-    cur.push_back(j++);
-    paths_t(c, cur, out);
-    cur.pop_back();
-  }
-}
-
-std::vector<path> all_paths()
-{
-  std::vector<path> out;
-  for (std::size_t r = 0; r < forest.size(); ++r)
-  {
-    path cur{r};
-    paths_t(*forest[r], cur, out);
-  }
-  return out;
-}
-
-tree *node_at(path const &p)
-{
-  if (p.empty() || p[0] >= forest.size())
-    return nullptr;
-  tree *t = forest[p[0]].get();
-  for (std::size_t k = 1; k < p.size(); ++k)
-  {
-    if (p[k] >= t->size())
-      return nullptr;
-    t = &*std::next(t->begin(), static_cast<std::ptrdiff_t>(p[k]));
-  }
-  return t;
-}
-
+constexpr std::size_t pair_cap = 14;
 std::string path_str(path const &p)
 {
   std::string r;
@@ -99,7 +48,6 @@ std::string path_str(path const &p)
   }
   return r;
 }
-
 bool is_nat(std::string const &s)
 {
   if (s.empty())
@@ -109,46 +57,12 @@ bool is_nat(std::string const &s)
       return false;
   return true;
 }
-
 bool is_int(std::string const &s)
 {
   if (!s.empty() && s[0] == '-')
     return is_nat(s.substr(1));
   return is_nat(s);
 }
-
-// resolve a selector; empty optional = bad
-bool sel(std::string const &tok, path &out)
-{
-  if (!tok.empty() && tok[0] == 'p')
-  {
-    path p;
-    std::size_t pos = 1;
-    while (true)
-    {
-      std::size_t const next = tok.find('.', pos);
-      std::string const part = tok.substr(pos, next == std::string::npos ? next : next - pos);
-      if (!is_nat(part))
-        return false;
-      p.push_back(static_cast<std::size_t>(std::stoull(part)));
-      if (next == std::string::npos)
-        break;
-      pos = next + 1;
-    }
-    if (node_at(p) == nullptr)
-      return false;
-    out = p;
-    return true;
-  }
-  if (!is_nat(tok))
-    return false;
-  std::vector<path> const ps = all_paths();
-  if (ps.empty())
-    return false;
-  out = ps[static_cast<std::size_t>(std::stoull(tok) % ps.size())];
-  return true;
-}
-
 bool is_prefix(path const &p, path const &q)
 {
   if (p.size() > q.size())
@@ -158,81 +72,6 @@ bool is_prefix(path const &p, path const &q)
       return false;
   return true;
 }
-
-// ---- dump: value, parent flag, children ------------------------------------------------------------------
-
-template <typename T>
-bool parent_is(T &node, T *owner, bool use_const)
-{
-  if (use_const)
-  {
-    T const &cn = node;
-    auto const p = cn.parent();
-    if (owner == nullptr)
-      return !p.has_value();
-    return p.has_value() && &p.get_unsafe().get() == owner;
-  }
-  auto const p = node.parent();
-  if (owner == nullptr)
-    return !p.has_value();
-  return p.has_value() && &p.get_unsafe().get() == owner;
-}
-
-template <typename T>
-void dump_t(T &node, T *owner, std::string &out, bool &all_ok, unsigned &alt)
-{
-  bool const ok = parent_is(node, owner, (alt++ % 2U) == 0U);
-  all_ok = all_ok && ok;
-  out += std::to_string(node.value());
-  out += ok ? '+' : '!';
-  if (!node.empty())
-  {
-    out += '(';
-    bool first = true;
-    for (auto &c : node)
-    {
-      if (!first)
-        out += ' ';
-      first = false;
-      dump_t(c, &node, out, all_ok, alt);
-    }
-    out += ')';
-  }
-}
-
-// only when every link is right: walk every parent chain (dereferences the links; ASan sees dangling ones)
-bool levels_ok(tree const &node, std::size_t depth)
-{
-  if (fcppt::container::tree::level(node) != depth)
-    return false;
-  for (auto const &c : node.children())
-    if (!levels_ok(c, depth + 1))
-      return false;
-  return true;
-}
-
-std::string dump_forest()
-{
-  if (forest.empty())
-    return "-";
-  std::string out;
-  bool all_ok = true;
-  unsigned alt = 0;
-  for (std::size_t r = 0; r < forest.size(); ++r)
-  {
-    if (r)
-      out += ' ';
-    dump_t<tree>(*forest[r], nullptr, out, all_ok, alt);
-  }
-  if (all_ok)
-    for (auto const &t : forest)
-      if (!levels_ok(*t, 0))
-        out += " LEVEL-MISMATCH";
-  return out;
-}
-
-std::string done(std::string const &head) { return head + " | " + dump_forest(); }
-
 std::string int_list(std::vector<int> const &v)
 {
   std::string r;
@@ -244,348 +83,140 @@ std::string int_list(std::vector<int> const &v)
   }
   return r;
 }
-
-tree::iterator it_at(tree &t, std::size_t i) { return std::next(t.begin(), static_cast<std::ptrdiff_t>(i)); }
-
-void keep_or_drop(tree &&r, bool keep)
+int key_of(int k, int v)
 {
-  if (keep)
-    forest.push_back(std::make_unique<tree>(std::move(r)));
+  switch (k)
+  {
+  case 2:
+    return ((v % 3) + 3) % 3;
+  default:
+    return v < 0 ? -v : v;
+  }
 }
 
-std::string handle_impl(std::vector<std::string> const &t)
+bool sel_well_formed(std::string const &tok)
 {
-  bool const full = forest.size() >= max_roots;
-  std::size_t const cnt = count();
-  bool const big = cnt >= grow_cap;
-  if (t.size() == 1 && t[0] == "reset")
+  if (!tok.empty() && tok[0] == 'p')
   {
-    forest.clear();
-    return "ok";
+    std::size_t pos = 1;
+    while (true)
+    {
+      std::size_t const next = tok.find('.', pos);
+      if (!is_nat(tok.substr(pos, next == std::string::npos ? next : next - pos)))
+        return false;
+      if (next == std::string::npos)
+        return true;
+      pos = next + 1;
+    }
   }
-  if (t.size() == 2 && t[0] == "new")
-  {
-    if (!is_int(t[1]))
-      return "bad-op";
-    if (full)
-      return "skip:full";
-    if (big)
-      return "skip:big";
-    int const v = std::stoi(t[1]);
-    forest.push_back(std::make_unique<tree>(v));
-    return done("ok");
-  }
-  if (t.size() == 2 && t[0] == "del")
-  {
-    if (!is_nat(t[1]))
-      return "bad-op";
-    if (forest.empty())
-      return "skip:empty";
-    std::size_t const r = static_cast<std::size_t>(std::stoull(t[1]) % forest.size());
-    forest.erase(forest.begin() + static_cast<std::ptrdiff_t>(r));
-    return done("ok r=" + std::to_string(r));
-  }
-  if (t.size() < 2 || t.size() > 4)
-    return "bad-op";
-  std::string const &cmd = t[0];
-  path pa;
-  if (!sel(t[1], pa))
-    return "bad-op";
-  tree &a = *node_at(pa);
-  std::string const sa = path_str(pa);
-  std::size_t const len = a.size();
-
-  if (t.size() == 2)
-  {
-    if (cmd == "clear")
-    {
-      a.clear();
-      return done("ok a=" + sa);
-    }
-    if (cmd == "sort")
-    {
-      a.sort();
-      return done("ok a=" + sa);
-    }
-    if (cmd == "cpc")
-    {
-      if (full)
-        return "skip:full";
-      if (cnt + size_of(a) > copy_cap)
-        return "skip:big";
-      tree const &ca = a;
-      forest.push_back(std::make_unique<tree>(ca));
-      return done("ok b=" + sa);
-    }
-    if (cmd == "mvc")
-    {
-      if (full)
-        return "skip:full";
-      forest.push_back(std::make_unique<tree>(std::move(a)));
-      return done("ok b=" + sa);
-    }
-    if (cmd == "pre")
-    {
-      std::vector<int> v1;
-      std::vector<int> v2;
-      tree const &ca = a;
-      fcppt::container::tree::pre_order<tree const> const trav{ca};
-      for (auto it = trav.begin(); it != trav.end() && v1.size() < walk_cap; ++it)
-        v1.push_back(it->value());
-      fcppt::container::tree::pre_order<tree> const trav2{a};
-      for (tree &n : trav2)
-      {
-        if (v2.size() >= walk_cap)
-          break;
-        v2.push_back(n.value());
-      }
-      return "q a=" + sa + " pre=" + int_list(v1) + (v1 == v2 ? "" : " NONCONST-DIFFERS");
-    }
-    if (cmd == "toroot")
-    {
-      std::vector<int> v1;
-      tree const &ca = a;
-      fcppt::container::tree::to_root<tree const> const trav{ca};
-      for (auto it = trav.begin(); it != trav.end() && v1.size() < walk_cap; ++it)
-        v1.push_back(it->value());
-      std::vector<int> v2;
-      fcppt::container::tree::to_root<tree> const trav2{a};
-      for (tree &n : trav2)
-      {
-        if (v2.size() >= walk_cap)
-          break;
-        v2.push_back(n.value());
-      }
-      return "q a=" + sa + " toroot=" + int_list(v1) + (v1 == v2 ? "" : " NONCONST-DIFFERS");
-    }
-    if (cmd == "depth")
-      return "q a=" + sa + " depth=" + std::to_string(fcppt::container::tree::depth(a));
-    if (cmd == "level")
-      return "q a=" + sa + " level=" + std::to_string(fcppt::container::tree::level(a));
-    if (cmd == "map")
-    {
-      ltree m{fcppt::container::tree::map<ltree>(a, [](int const x) { return 2L * x + 1L; })};
-      std::string out;
-      bool all_ok = true;
-      unsigned alt = 0;
-      dump_t<ltree>(m, nullptr, out, all_ok, alt);
-      return "q a=" + sa + " map=" + out;
-    }
-    return "bad-op";
-  }
-
-  if (t.size() == 3)
-  {
-    std::string const &x = t[2];
-    if (cmd == "set")
-    {
-      if (!is_int(x))
-        return "bad-op";
-      int const v = std::stoi(x);
-      if (v % 2 == 0)
-        a.value(v);
-      else
-        a.value(int{v});
-      return done("ok a=" + sa);
-    }
-    if (cmd == "pushb" || cmd == "pushf")
-    {
-      if (!is_int(x))
-        return "bad-op";
-      if (big)
-        return "skip:big";
-      int const v = std::stoi(x);
-      // both overloads: T const & (even values) and T && (odd values)
-      if (cmd == "pushb")
-      {
-        tree &r = (v % 2 == 0) ? a.push_back(v).get() : a.push_back(int{v}).get();
-        if (&r != &*std::prev(a.end()))
-          return "RETURNED-REFERENCE-WRONG";
-      }
-      else
-      {
-        tree &r = (v % 2 == 0) ? a.push_front(v).get() : a.push_front(int{v}).get();
-        if (&r != &*a.begin())
-          return "RETURNED-REFERENCE-WRONG";
-      }
-      return done("ok a=" + sa);
-    }
-    if (cmd == "pushbt" || cmd == "pushft")
-    {
-      path pb;
-      if (!sel(x, pb))
-        return "bad-op";
-      if (is_prefix(pb, pa))
-        return "skip:misuse";
-      tree &b = *node_at(pb);
-      if (cmd == "pushbt")
-      {
-        tree &r = a.push_back(std::move(b)).get();
-        if (&r != &*std::prev(a.end()))
-          return "RETURNED-REFERENCE-WRONG";
-      }
-      else
-      {
-        tree &r = a.push_front(std::move(b)).get();
-        if (&r != &*a.begin())
-          return "RETURNED-REFERENCE-WRONG";
-      }
-      return done("ok a=" + sa + " b=" + path_str(pb));
-    }
-    if (cmd == "popb" || cmd == "popf")
-    {
-      if (!is_nat(x))
-        return "bad-op";
-      bool const keep = std::stoull(x) != 0 && !full;
-      tree::optional_object r{cmd == "popb" ? a.pop_back() : a.pop_front()};
-      bool const has = r.has_value();
-      if (has)
-        keep_or_drop(std::move(r.get_unsafe()), keep);
-      return done("ok a=" + sa + (has ? " some" : " none"));
-    }
-    if (cmd == "erase")
-    {
-      if (!is_nat(x))
-        return "bad-op";
-      if (len == 0)
-        return "skip:empty";
-      std::size_t const i = static_cast<std::size_t>(std::stoull(x) % len);
-      a.erase(it_at(a, i));
-      return done("ok a=" + sa + " i=" + std::to_string(i));
-    }
-    if (cmd == "cposk")
-    {
-      if (!is_nat(x))
-        return "bad-op";
-      if (len == 0)
-        return "skip:empty";
-      std::size_t const i = static_cast<std::size_t>(std::stoull(x) % len);
-      tree &b = *it_at(a, i);
-      auto const r = fcppt::container::tree::child_position(a, b);
-      return "q a=" + sa + " i=" + std::to_string(i) + " cpos=" +
-             (r.has_value() ? std::to_string(std::distance(a.begin(), r.get_unsafe())) : std::string{"none"});
-    }
-    // two node operands
-    path pb;
-    if (!sel(x, pb))
-      return "bad-op";
-    tree &b = *node_at(pb);
-    std::string const sb = path_str(pb);
-    std::string const head = "ok a=" + sa + " b=" + sb;
-    if (cmd == "swap")
-    {
-      if (!(pa == pb || (!is_prefix(pa, pb) && !is_prefix(pb, pa))))
-        return "skip:misuse";
-      // member and free function alternate
-      if ((pa.size() + pb.size()) % 2 == 0)
-        a.swap(b);
-      else
-        fcppt::container::tree::swap(a, b);
-      return done(head);
-    }
-    if (cmd == "mva")
-    {
-      if (!(pa == pb || !is_prefix(pb, pa)))
-        return "skip:misuse";
-      tree &r = (a = std::move(b));
-      if (&r != &a)
-        return "RETURNED-REFERENCE-WRONG";
-      return done(head);
-    }
-    if (cmd == "cpa")
-    {
-      if (cnt + size_of(b) > copy_cap)
-        return "skip:big";
-      tree const &cb = b;
-      tree &r = (a = cb);
-      if (&r != &a)
-        return "RETURNED-REFERENCE-WRONG";
-      return done(head);
-    }
-    if (cmd == "cpos")
-    {
-      auto const r = fcppt::container::tree::child_position(a, b);
-      tree const &ca = a;
-      tree const &cb = b;
-      auto const rc = fcppt::container::tree::child_position(ca, cb);
-      if (r.has_value() != rc.has_value())
-        return "CONST-DIFFERS";
-      return "q a=" + sa + " b=" + sb + " cpos=" +
-             (r.has_value() ? std::to_string(std::distance(a.begin(), r.get_unsafe())) : std::string{"none"});
-    }
-    if (cmd == "eq")
-    {
-      tree const &ca = a;
-      tree const &cb = b;
-      bool const e = ca == cb;
-      bool const n = ca != cb;
-      return "q a=" + sa + " b=" + sb + " eq=" + (e ? "1" : "0") + " ne=" + (n ? "1" : "0");
-    }
-    return "bad-op";
-  }
-
-  // four tokens
-  std::string const &x = t[2];
-  std::string const &y = t[3];
-  if (!is_nat(x))
-    return "bad-op";
-  if (cmd == "ins")
-  {
-    if (!is_int(y))
-      return "bad-op";
-    if (big)
-      return "skip:big";
-    std::size_t const i = static_cast<std::size_t>(std::stoull(x) % (len + 1));
-    int const v = std::stoi(y);
-    if (v % 2 == 0)
-      a.insert(it_at(a, i), v);
-    else
-      a.insert(it_at(a, i), int{v});
-    return done("ok a=" + sa + " i=" + std::to_string(i));
-  }
-  if (cmd == "inst")
-  {
-    path pb;
-    if (!sel(y, pb))
-      return "bad-op";
-    if (is_prefix(pb, pa))
-      return "skip:misuse";
-    std::size_t const i = static_cast<std::size_t>(std::stoull(x) % (len + 1));
-    tree &b = *node_at(pb);
-    a.insert(it_at(a, i), std::move(b));
-    return done("ok a=" + sa + " i=" + std::to_string(i) + " b=" + path_str(pb));
-  }
-  if (cmd == "rel")
-  {
-    if (!is_nat(y))
-      return "bad-op";
-    if (len == 0)
-      return "skip:empty";
-    std::size_t const i = static_cast<std::size_t>(std::stoull(x) % len);
-    bool const keep = std::stoull(y) != 0 && !full;
-    tree r{a.release(it_at(a, i))};
-    keep_or_drop(std::move(r), keep);
-    return done("ok a=" + sa + " i=" + std::to_string(i));
-  }
-  if (cmd == "eraser")
-  {
-    if (!is_nat(y))
-      return "bad-op";
-    std::size_t const i0 = static_cast<std::size_t>(std::stoull(x) % (len + 1));
-    std::size_t const j0 = static_cast<std::size_t>(std::stoull(y) % (len + 1));
-    std::size_t const i = i0 < j0 ? i0 : j0;
-    std::size_t const j = i0 < j0 ? j0 : i0;
-    a.erase(it_at(a, i), it_at(a, j));
-    return done("ok a=" + sa + " i=" + std::to_string(i) + " j=" + std::to_string(j));
-  }
-  return "bad-op";
+  return is_nat(tok);
 }
 
+bool one_of(std::string const &c, std::initializer_list<char const *> l)
+{
+  for (char const *x : l)
+    if (c == x)
+      return true;
+  return false;
+}
+
+// the tokens of a line that select nodes; false: not a known node command of that arity
+bool node_operands(std::vector<std::string> const &t, std::vector<std::string> &out)
+{
+  if (t.size() == 2 && one_of(t[0], {"clear", "sort", "cpc", "mvc", "pre", "toroot", "depth", "level", "map", "front", "back",
+                                     "kids", "out"}))
+  {
+    out = {t[1]};
+    return true;
+  }
+  if (t.size() == 3 && one_of(t[0], {"set", "pushb", "pushf", "popb", "popf", "erase", "cposk", "sortp", "mkl"}))
+  {
+    out = {t[1]};
+    return true;
+  }
+  if (t.size() == 3 && one_of(t[0], {"pushbt", "pushft", "swap", "cpa", "mva", "cpos", "eq", "pushbv", "pushfv", "setv",
+                                     "pushbmv", "pushfmv", "setmv"}))
+  {
+    out = {t[1], t[2]};
+    return true;
+  }
+  if (t.size() == 4 && one_of(t[0], {"ins", "rel", "eraser"}))
+  {
+    out = {t[1]};
+    return true;
+  }
+  if (t.size() == 4 && one_of(t[0], {"inst", "insv"}))
+  {
+    out = {t[1], t[3]};
+    return true;
+  }
+  return false;
+}
+
+// A value type that can be moved but not copied (fcppt itself instantiates the tree with such a type:
+// fcppt::log::detail::context_tree_node).  A moved-from mo_int keeps its number, like an int, so the same model applies;
+// any copy of a value inside a member function that is used here is a compile error.
+struct mo_int
+{
+  explicit mo_int(int const _v) : v{_v} {}
+  mo_int(mo_int const &) = delete;
+  mo_int &operator=(mo_int const &) = delete;
+  mo_int(mo_int &&) noexcept = default;
+  mo_int &operator=(mo_int &&) noexcept = default;
+  ~mo_int() = default;
+  int v;
+};
+
+bool operator==(mo_int const &a, mo_int const &b) { return a.v == b.v; }
+bool operator<(mo_int const &a, mo_int const &b) { return a.v < b.v; }
+template <typename Ch, typename Traits>
+std::basic_ostream<Ch, Traits> &operator<<(std::basic_ostream<Ch, Traits> &s, mo_int const &a)
+{
+  return s << a.v;
+}
+
+std::string to_s(int const v) { return std::to_string(v); }
+std::string to_s(long const v) { return std::to_string(v); }
+std::string to_s(mo_int const &v) { return std::to_string(v.v); }
+int iv(int const v) { return v; }
+int iv(mo_int const &v) { return v.v; }
+
+namespace plain
+{
+using value_t = int;
+int mk(int const v) { return v; }
+#define C09_COPYABLE 1
+#include "c09_body.cpp"
+#undef C09_COPYABLE
+}
+
+namespace moveonly
+{
+using value_t = mo_int;
+mo_int mk(int const v) { return mo_int{v}; }
+#define C09_COPYABLE 0
+#include "c09_body.cpp"
+#undef C09_COPYABLE
+}
+
+// lines starting with "M" go to the move-only instantiation (a forest of its own); "reset" clears both
 std::string handle(std::vector<std::string> const &t)
 {
   try
   {
-    return handle_impl(t);
+    if (t.size() == 1 && t[0] == "reset")
+    {
+      moveonly::forest.clear();
+      return plain::handle_impl(t);
+    }
+    if (!t.empty() && t[0] == "M")
+    {
+      std::vector<std::string> const rest(t.begin() + 1, t.end());
+      if (rest.size() == 1 && rest[0] == "reset")
+        return "bad-op";
+      return moveonly::handle_impl(rest);
+    }
+    return plain::handle_impl(t);
   }
   catch (std::exception const &)
   {
